@@ -26,7 +26,7 @@ class CHECK(Check):
     rule = ("containers (three families) whose members are instances of a 4-class hierarchy (K1 subclass of K0, K2, K3) "
             "with data drawn from two values so that value-equal duplicates (also of the first element) occur; "
             "(a) every container of <=3 (quick) / <=4 (thorough) members over 3 classes x 2 values x every requested "
-            "type (4 classes, the family base, the default class) x filter dictionaries {} / matching / non-matching / "
+            "type (4 classes, the family base, the default class) x filter dictionaries {} / matching / non-matching / None-valued before and after other keys / "
             "None-valued over 0-2 attributes x {of_type, get_*_of_type, remove_*_of_type}; (b) random containers of "
             "1-10 members with queries interleaved with structural operations. non-trivial = the query selects at "
             "least one but not all members, or bulk removal hits a match value-equal to the first; distinct = case hash")
@@ -34,7 +34,8 @@ class CHECK(Check):
     def gen(self, tier, rng):
         maxn = 3 if tier == "quick" else 4
         kinds = [(c, d) for c in (0, 1, 2) for d in (1, 2)]
-        filters = [[], [[0, 1]], [[0, 2]], [[0, None]], [[0, 1], [1, 7]], [[0, 1], [1, None]], [[1, 9]]]
+        filters = [[], [[0, 1]], [[0, 2]], [[0, None]], [[0, 1], [1, 7]], [[0, 1], [1, None]], [[1, 9]],
+                   [[0, None], [1, 9]], [[1, None], [0, 2]], [[2, None], [0, 1], [1, 7]]]
         fi = 0
         for n in range(1, maxn + 1):
             for combo in itertools.product(kinds, repeat=n):
@@ -67,7 +68,8 @@ class CHECK(Check):
                     op = [4, rng.choice(l), 0]
                     l = ref_apply(l, op)
                 else:
-                    kw = rng.choice([[], [[0, rng.choice([1, 2, None])]], [[0, rng.choice([1, 2])], [1, rng.choice([7, None, 8])]]])
+                    kw = rng.choice([[], [[0, rng.choice([1, 2, None])]], [[0, rng.choice([1, 2])], [1, rng.choice([7, None, 8])]],
+                                     [[0, rng.choice([None, 1])], [1, rng.choice([7, 8])]], [[2, None], [1, rng.choice([7, 8, None])], [0, rng.choice([1, 2])]]])
                     op = [rng.choice([5, 6, 7, 7]), rng.randrange(NT), kw]
                     if op[0] == 5:
                         op[2] = []
